@@ -21,6 +21,7 @@ RULE = (
     "contract tokens and (b) the event traces and outcomes of a fixed battery of probe calls (construction, member call, attribute "
     "assignment; all-true and each-single-false truth assignments). After EVERY later step every earlier entity is re-observed and "
     "must be unchanged. Non-trivial = a re-observation of an entity that has contracts; distinct = (history index, step, entity)."
+    ' Fixed histories: 24 joins of an accept-all base and a stating base (6 member kinds x 2 orders x 2 overrides), members re-used under the name of another member / in an unrelated hierarchy (method and property getter). Random histories re-use members of ancestors and of unrelated classes under their own, another or a new name; a contract added afterwards to a function re-baselines every class that holds that very function.'
 )
 ASSUMPTIONS = ["identity changes of list objects are not judged, only contents and behaviour"]
 
@@ -130,7 +131,7 @@ def behaviour(hub: probe.Hub, module: Any, ent: Entity, known_ids: List[str]) ->
                 if op == "construct":
                     obj()
                 elif op == "func":
-                    res = obj(Tok("x"))
+                    res = obj(Tok("self"), Tok("x")) if ent.spec.get("methodlike") else obj(Tok("x"))
                     if inspect.iscoroutine(res):
                         probe.drive(res)
                 elif op == "setattr":
@@ -346,6 +347,12 @@ def classify(hist: List[Dict[str, Any]], victim: Entity, culprit_step: Dict[str,
     if "decorate" in culprit_step:
         # mechanism: the checker of an overriding member shares (precondition group) lists with the checker of the base member
         return "C17/contract-added-to-override-afterwards-leaks-into-base"
+    if "name" in culprit_step and any("." not in line.split(" = ")[1] for line in culprit_step.get("class_body", [])):
+        # mechanism: a contracted function defined OUTSIDE any class is used as a member; the contracts which the bases of the new class
+        # declare for that name are merged into its checker - the function's own, shared with every other class that uses it
+        holders = {victim.name} if not victim.is_class else {line.split(" = ")[1] for line in victim.spec.get("class_body", [])}
+        if {line.split(" = ")[1] for line in culprit_step.get("class_body", []) if "." not in line.split(" = ")[1]} & holders:
+            return "C17/function-defined-outside-any-class-shared-as-a-member-gets-the-contracts-of-the-new-bases"
     if "name" in culprit_step and any(line.split(" = ")[0] != line.split(".")[-1].rstrip(")") for line in culprit_step.get("class_body", [])):
         # the culprit re-uses a function object of another class under another name / from an unrelated hierarchy
         return "C17/reused-member-of-another-class-merged-with-the-contracts-of-the-new-bases"
@@ -445,7 +452,7 @@ def run_history(w, hist_index: int) -> None:
             if decoration_of(step) is not None:
                 continue
             if "func" in step:
-                ent = Entity(name, {"members": []}, False)
+                ent = Entity(name, {"members": [], "methodlike": bool(step.get("methodlike"))}, False)
                 ent.battery_ids = [c["id"] for dk, c in step["func"]["decos"] if dk in ("pre", "post")]
             else:
                 class_specs.append(step)
@@ -590,7 +597,40 @@ def fixed_histories_reuse():
         ]
 
 
+def fixed_histories_shared_function():
+    """A contracted function defined outside any class which two classes use as a member (`m_s = f_shared` in their bodies), the
+    second one in a hierarchy whose base declares contracts for that name: the first class and the function itself keep theirs."""
+    def pre(cid, arg="x"):
+        return ["pre", {"id": cid, "form": "def", "args": [arg], "err": "instance"}]
+
+    def post(cid):
+        return ["post", {"id": cid, "form": "def", "args": ["result"], "err": "instance"}]
+
+    params = [prog.P("self"), prog.P("x")]
+
+    def cls(name, bases, members, class_body=(), aliases=()):
+        return {"name": name, "bases": list(bases), "dbc": True, "invs": [], "class_body": list(class_body),
+                "aliases": [{"name": a, "kind": "method", "params": params, "decos": []} for a in aliases], "members": members}
+
+    shared = {"func": {"name": "f_shared", "kind": "function", "async": False, "params": params, "decos": [pre("rf"), post("ef")]}, "methodlike": True}
+    base_member = {"name": "m_s", "kind": "method", "async": False, "params": params, "decos": [pre("ru"), post("eu")]}
+    yield ("module-level-function-shared-by-two-classes",), [
+        shared, cls("KA", [], [], ["m_s = f_shared"], ["m_s"]), cls("KU", [], [base_member]),
+        cls("KB", ["KU"], [], ["m_s = f_shared"], ["m_s"]),
+    ]
+    yield ("module-level-function-used-by-a-class-with-stating-bases-first",), [
+        shared, cls("KU", [], [base_member]), cls("KB", ["KU"], [], ["m_s = f_shared"], ["m_s"]),
+        cls("KA", [], [], ["m_s = f_shared"], ["m_s"]), cls("KC", ["KU"], [], ["m_s = f_shared"], ["m_s"]),
+    ]
+
+
 def run(w) -> None:
+    if w.shard == 4 % w.nshards:
+        for meta, hist in fixed_histories_shared_function():
+            w.count("histories")
+            w.count("fixed_histories")
+            w.fixed_meta = meta
+            replay({"history": hist, "fixed": list(meta)}, w)
     if w.shard == 3 % w.nshards:
         for meta, hist in fixed_histories_reuse():
             w.count("histories")
@@ -672,7 +712,7 @@ def replay(case, w) -> None:
             if decoration_of(step) is not None:
                 continue
             if "func" in step:
-                ent = Entity(name, {"members": []}, False)
+                ent = Entity(name, {"members": [], "methodlike": bool(step.get("methodlike"))}, False)
                 ent.battery_ids = [c["id"] for dk, c in step["func"]["decos"] if dk in ("pre", "post")]
             else:
                 class_specs.append(step)
